@@ -28,6 +28,8 @@ d0cc302 C11 C11.rows
 26c1781 C08 C08.prefix
 a3cb032 C17 C17.own
 fdf1794 C14 C14.errflow
+288316b C17 C17.reset
+c4d33bf C08 C08.reposition
 LIST
 git -C /repo worktree remove --force $WT
 rm -rf /tmp/fixcheck-ev
